@@ -14,7 +14,7 @@ TRUSTED = [
     "that Go's regexp engine returns exactly the glob captures for the translated pattern is tested here, not proved",
     "extraction (ExtrOcamlBasic), ocaml runner, Go harness, Python generators and monitors",
 ]
-LITS = [b"a", b"Z9", b"_", b"-", b" ", b"%", b":", b"x_y", b"%s", b"\xc3\xa9", b"$$", b"1"]
+LITS = [b"a", b"Z9", b"_", b"-", b" ", b"%", b":", b"x_y", b"%s", b"\xc3\xa9", b"$$", b"1", b"+", b"{", b"}", b"$", b"\\", b"."]
 COMPS = [b"p", b"q", b"x-y", b"caf\xc3\xa9", b"9", b"A_b", b"w w", b"%d", b"\xe2\x82\xac", b"r", b"s", b"t"]
 
 
@@ -51,7 +51,14 @@ def wordp(ch):
     return ch == "_" or (ch.isascii() and ch.isalnum()) or (not ch.isascii() and (ch.isalpha() or ch.isdigit()))
 
 
+# whole templates that are ALMOST a reference: a fast path for "the template is just $n" must not swallow them
+NEAR_REFS = [b"$+1", b"${+2}", b"$-1", b"$+12", b"$ 1", b"$01", b"${01}", b"$1$", b"$", b"${", b"${}", b"$$1", b"${1", b"$1}", b"$0", b"${0}", b"$00",
+             b"$1_", b"$1a", b"${1}a", "$\u0661".encode(), b"${1 }", b"$+", b"$1.5", b"$1e1", b"$0x1", b"$99999999999999999999", b"${1}${1}", b"$1$2$3"]
+
+
 def gen_template(rnd, label=True):
+    if label and rnd.random() < 0.12:
+        return rnd.choice(NEAR_REFS)
     toks = []
     for _ in range(rnd.randint(1, 5)):
         r = rnd.random()
@@ -186,6 +193,11 @@ def run(rep, tier, seed, replay):
                     ntpl = b"n_$1"
             ltpls = [gen_template(rnd) for _ in range(3)]
             items.append((b".".join(pat), ntpl, ltpls, b".".join(metric)))
+        # every wildcard count around the sizes a fixed buffer or a bit mask could have, referring to the last capture and the one after
+        for nw in list(range(0, 21)) + [31, 32, 33, 63, 64, 65, 100]:
+            pat = [b"*"] * nw + [b"z"]
+            metric = [b"v%d" % k for k in range(nw)] + [b"z"]
+            items.append((b".".join(pat), b"n_$1", [b"$%d" % max(nw, 1), b"${%d}x$%d" % (nw + 1, max(nw, 1)), b"$1-$%d" % max(nw // 2, 1)], b".".join(metric)))
         if tier == "thorough":
             alpha = [b"a", b"%", b" ", b"_", b"$1", b"$2", b"${1}", b"$11", b"$0"]
             for t in itertools.product(alpha, repeat=4):
